@@ -42,7 +42,11 @@ impl Mesh {
         let d = match dist_mode {
             DistMode::ToPoint => {
                 let v = point - closest.point;
-                if v.norm() < 1e-6 {
+                // Only an offset down at the rounding error of the coordinates has no direction
+                // of its own; any larger one, however small, keeps it so that the value is the
+                // full distance
+                let noise = f64::EPSILON * (closest.point.coords.norm() + point.coords.norm());
+                if v.norm() <= noise {
                     closest.normal
                 } else if closest.normal.dot(&v) > 0.0 {
                     UnitVec3::new_normalize(v)
